@@ -62,6 +62,7 @@ def showEv : Ev → String
   | .drvScrub => "drvScrub"
   | .drvOp b => s!"drvOp {b}"
   | .drvOpClosed => "drvOpClosed"
+  | .drvMiscClosed => "drvMiscClosed"
   | .drvResp => "drvResp"
   | .srvSend f => s!"srvSend id={f.id} op={f.op} tok={f.tok} good={f.good}"
   | .srvClose => "srvClose"
@@ -102,7 +103,7 @@ def pickEv (s : St) (r : Nat) (faults : Bool) : List Ev :=
   else if a < 93 then [.tick (r2 % 3)]
   else if faults && a < 95 then [.srvClose]
   else if faults && a < 96 then [.srvGarbage]
-  else if faults && a < 97 then [.dropHandles, .drvOpClosed]
+  else if faults && a < 97 then [.dropHandles, if r2 % 2 == 0 then .drvOpClosed else .drvMiscClosed]
   else []
 
 def explore (seed walks len N : Nat) (faults : Bool) : String := Id.run do
